@@ -1,20 +1,46 @@
+"""C01 - Space Packet primary header (CCSDS 133.0-B-2 4.1.3).  Contracts on
+spacepackets/ccsds/spacepacket.py: PacketSeqCtrl, PacketId, SpacePacketHeader, SpacePacket and the
+module-level helper encoders."""
 from pyvc_spec import *
 from spec_ccsds import sph_octets
-from spacepackets.ccsds.spacepacket import SpacePacketHeader, PacketType, SequenceFlags, PacketId, PacketSeqCtrl
+from spacepackets.ccsds.spacepacket import (
+    SpacePacketHeader, PacketType, SequenceFlags, PacketId, PacketSeqCtrl, SpacePacket,
+    get_space_packet_id_bytes, get_sp_packet_id_raw, get_sp_psc_raw, get_apid_from_raw_space_packet,
+    get_total_space_packet_len_from_len_field,
+)
 
-SPH = "spacepackets.ccsds.spacepacket:SpacePacketHeader"
+M = "spacepackets.ccsds.spacepacket:"
 
 
-@obligation("C01", "SpacePacketHeader.pack", verifies=SPH + ".pack")
+@obligation(["C01"], "SpacePacketHeader.pack", verifies=M + "SpacePacketHeader.pack")
 def sph_pack(ver: IntRange(0, 7), ptype: EnumOf(PacketType), shf: Bool, apid: IntRange(0, 2047),
              flags: EnumOf(SequenceFlags), count: IntRange(0, 16383), dlen: IntRange(0, 65535)):
     h = SpacePacketHeader(ptype, apid, count, dlen, shf, flags, ver)
     r = h.pack()
     ensures("layout", r == sph_octets(ver, ptype, shf, apid, flags, count, dlen))
     ensures("packet_len", h.packet_len == dlen + 7)
+    ensures("header_len", h.header_len == 6)
+    ensures("accessors", both(h.ccsds_version == ver, h.packet_type == ptype, h.sec_header_flag == shf, h.apid == apid,
+                              h.seq_flags == flags, h.seq_count == count, h.data_len == dlen))
+    ensures("pack-pure", h.pack() == r)
 
 
-@obligation("C01", "SpacePacketHeader.unpack", verifies=SPH + ".unpack")
+@obligation(["C01"], "SpacePacketHeader.__init__/refusal", verifies=M + "SpacePacketHeader.__init__")
+def sph_init_refusal(ptype: EnumOf(PacketType), shf: Bool, apid: Int, flags: EnumOf(SequenceFlags), count: Int, dlen: Int):
+    """out-of-range APID, sequence count or data length are refused with ValueError - for all integers"""
+    o = outcome(SpacePacketHeader, ptype, apid, count, dlen, shf, flags)
+    bad = either(apid < 0, apid > 2047, count < 0, count > 16383, dlen < 0, dlen > 65535)
+    ensures("valueerror-iff", o.raised(ValueError) == bad)
+    ensures("raises-only", o.ok or o.raised(ValueError))
+    o2 = outcome(PacketId, ptype, shf, apid)
+    ensures("packet-id-iff", o2.raised(ValueError) == either(apid < 0, apid > 2047))
+    o3 = outcome(PacketSeqCtrl, flags, count)
+    ensures("psc-iff", o3.raised(ValueError) == either(count < 0, count > 16383))
+    o4 = outcome(SpacePacketHeader.from_composite_fields, PacketId(ptype, shf, 0), PacketSeqCtrl(flags, 0), dlen)
+    ensures("composite-iff", o4.raised(ValueError) == either(dlen < 0, dlen > 65535))
+
+
+@obligation(["C01", "C09", "C10"], "SpacePacketHeader.unpack", verifies=M + "SpacePacketHeader.unpack")
 def sph_unpack(data: Bytes):
     o = outcome(SpacePacketHeader.unpack, data)
     ensures("too-short-iff", o.raised(ValueError) == (len(data) < 6))
@@ -32,3 +58,76 @@ def sph_unpack(data: Bytes):
         ensures("data_len", h.data_len == data[4] * 256 + data[5])
         ensures("packet_len", h.packet_len == data[4] * 256 + data[5] + 7)
         ensures("repack", h.pack() == data[0:6])
+        ensures("prefix-only", same_state(h, SpacePacketHeader.unpack(data[0:6])))
+
+
+@obligation(["C01", "C09"], "SpacePacketHeader/roundtrip")
+def sph_roundtrip(ver: IntRange(0, 7), ptype: EnumOf(PacketType), shf: Bool, apid: IntRange(0, 2047),
+                  flags: EnumOf(SequenceFlags), count: IntRange(0, 16383), dlen: IntRange(0, 65535), suffix: Bytes):
+    """decode(encode(h) ++ anything) = h"""
+    h = SpacePacketHeader(ptype, apid, count, dlen, shf, flags, ver)
+    g = SpacePacketHeader.unpack(h.pack() + suffix)
+    ensures("equal", g == h)
+    ensures("state", same_state(g, h))
+    ensures("fields", both(g.ccsds_version == ver, g.packet_type == ptype, g.sec_header_flag == shf, g.apid == apid,
+                           g.seq_flags == flags, g.seq_count == count, g.data_len == dlen, g.packet_len == dlen + 7))
+    h2 = SpacePacketHeader.from_composite_fields(PacketId(ptype, shf, apid), PacketSeqCtrl(flags, count), dlen, ver)
+    ensures("composite", same_state(h2, h))
+
+
+@obligation(["C01"], "PacketId/raw", verifies=[M + "PacketId.raw", M + "PacketId.from_raw"])
+def packet_id_raw(ptype: EnumOf(PacketType), shf: Bool, apid: IntRange(0, 2047), raw: IntRange(0, 8191)):
+    p = PacketId(ptype, shf, apid)
+    ensures("raw", p.raw() == ptype * 4096 + shf * 2048 + apid)
+    q = PacketId.from_raw(p.raw())
+    ensures("from-raw-inverse", both(q.ptype == ptype, q.sec_header_flag == shf, q.apid == apid, q == p))
+    r = PacketId.from_raw(raw)
+    ensures("from-raw-bits", both(r.ptype == bits(raw, 12, 12), r.sec_header_flag == (bits(raw, 11, 11) == 1), r.apid == bits(raw, 10, 0)))
+    ensures("raw-inverse", r.raw() == raw)
+    ensures("helper", get_sp_packet_id_raw(ptype, shf, apid) == p.raw())
+    ensures("eq-iff", (PacketId(ptype, shf, apid) == r) == (p.raw() == raw))
+
+
+@obligation(["C01"], "PacketSeqCtrl/raw", verifies=[M + "PacketSeqCtrl.raw", M + "PacketSeqCtrl.from_raw"])
+def psc_raw(flags: EnumOf(SequenceFlags), count: IntRange(0, 16383), raw: IntRange(0, 65535)):
+    p = PacketSeqCtrl(flags, count)
+    ensures("raw", p.raw() == flags * 16384 + count)
+    q = PacketSeqCtrl.from_raw(p.raw())
+    ensures("from-raw-inverse", both(q.seq_flags == flags, q.seq_count == count, q == p))
+    r = PacketSeqCtrl.from_raw(raw)
+    ensures("from-raw-bits", both(r.seq_flags == bits(raw, 15, 14), r.seq_count == bits(raw, 13, 0)))
+    ensures("raw-inverse", r.raw() == raw)
+    ensures("helper", get_sp_psc_raw(flags, count) == p.raw())
+    ensures("eq-iff", (p == r) == (p.raw() == raw))
+
+
+@obligation(["C01"], "helpers", verifies=[M + "get_space_packet_id_bytes", M + "get_apid_from_raw_space_packet",
+                                          M + "get_total_space_packet_len_from_len_field"])
+def helpers(ver: IntRange(0, 7), ptype: EnumOf(PacketType), shf: Bool, apid: IntRange(0, 2047), data: Bytes, dlen: IntRange(0, 65535)):
+    b = get_space_packet_id_bytes(ptype, shf, apid, ver)
+    word = be(2, ver * 8192 + ptype * 4096 + shf * 2048 + apid)
+    ensures("id-bytes", both(b[0] == word[0], b[1] == word[1]))
+    o = outcome(get_apid_from_raw_space_packet, data)
+    ensures("apid-short-iff", o.raised(ValueError) == (len(data) < 6))
+    ensures("apid-raises-only", o.ok or o.raised(ValueError))
+    if o.ok:
+        ensures("apid", o.value == bits(data[0] * 256 + data[1], 10, 0))
+    ensures("total-len", get_total_space_packet_len_from_len_field(dlen) == dlen + 7)
+
+
+@obligation(["C01"], "SpacePacket.pack", verifies=M + "SpacePacket.pack")
+def space_packet_pack(ptype: EnumOf(PacketType), shf: Bool, apid: IntRange(0, 2047), count: IntRange(0, 16383),
+                      dlen: IntRange(0, 65535), sec: OptionalOf(Bytes), user: OptionalOf(Bytes)):
+    h = SpacePacketHeader(ptype, apid, count, dlen, shf)
+    sp = SpacePacket(h, sec, user)
+    o = outcome(sp.pack)
+    missing = either(both(shf, sec is None), both(not shf, user is None))
+    ensures("valueerror-iff", o.raised(ValueError) == missing)
+    ensures("raises-only", o.ok or o.raised(ValueError))
+    if o.ok:
+        expect = h.pack()
+        if shf:
+            expect = expect + sec
+        if user is not None:
+            expect = expect + user
+        ensures("layout", o.value == expect)
